@@ -639,7 +639,7 @@ def _explore_in_slices(ctx, strategy, body, total, shrink, slice_size=400):
 
 def run(ctx):
     ctx.set_budget(70, 850)
-    _explore_in_slices(ctx, case_st, lambda c: execute(ctx, c), ctx.scale(1400, 30000), shrink=True, slice_size=1400)
+    _explore_in_slices(ctx, case_st, lambda c: execute(ctx, c), ctx.scale(1500, 30000), shrink=True, slice_size=1500)
 
 
 def replay(ctx, case):
